@@ -12,5 +12,13 @@ func VerifIssue(parent *Certificate, child *Identity, t CertificateType, at time
 	return issue(parent, child, t, at, d)
 }
 
+// VerifIssueWindow signs a child with an arbitrary validity window (issue insists on a window nested in
+// the parent's; the holder of a CA key is not bound by that).  The signing itself is the real routine.
+func VerifIssueWindow(parent *Certificate, child *Identity, t CertificateType, from, to time.Time) (*Certificate, error) {
+	p := *parent
+	p.IssuedAt, p.ExpiresAt = from, to
+	return issue(&p, child, t, from, to.Sub(from))
+}
+
 // VerifSetKey attaches a signing key to a certificate of any type.
 func VerifSetKey(c *Certificate, private *[KeyLen]byte) { c.privateKey = private }
